@@ -39,6 +39,27 @@ Theorem C34_agg_key_signs_and_verifies :
 Proof. exact dkg_agg_key_signs_and_verifies. Qed.
 Print Assumptions C34_agg_key_signs_and_verifies.
 
+(* Aggregation is a function of the set of received shares: repeating AggregateSecretKeyShares,
+   whatever Si held before, or adding again a share that is already held, changes nothing; on the
+   dealers' honest shares for id i it yields dkg_sk css i (the key of the theorem above). *)
+Theorem C34_aggregation_idempotent :
+  forall (F : fieldType) (recv : seq (F * F)) (x y j s : F),
+    dkg_aggregate (dkg_aggregate (recv, x)) = dkg_aggregate (recv, x) /\
+    dkg_aggregate (recv, x) = dkg_aggregate (recv, y) /\
+    (uniq (unzip1 recv) -> (j, s) \in recv -> dkg_recv_add recv j s = recv).
+Proof.
+exact (fun F recv x y j s => conj (dkg_aggregate_idem (recv, x))
+         (conj (dkg_aggregate_forgets recv x y) (@dkg_recv_add_same F recv j s))).
+Qed.
+Print Assumptions C34_aggregation_idempotent.
+
+Theorem C34_aggregation_of_honest_shares :
+  forall (F : fieldType) (css : seq (seq F)) (dealers : seq F) (i x : F),
+    size dealers = size css ->
+    (dkg_aggregate ([seq (p.1, dkg_share p.2 i) | p <- zip dealers css], x)).2 = dkg_sk css i.
+Proof. exact dkg_aggregate_honest. Qed.
+Print Assumptions C34_aggregation_of_honest_shares.
+
 (* Any list of at least t distinct non-zero ids (t = number of coefficients of every dealer)
    recovers the same value: the signature of the group secret, which verifies under the group
    public key. *)
